@@ -133,8 +133,6 @@ func (b *bucketState) describe() string {
 	return fmt.Sprintf("bucket{allowEmptyFolder=%v keys=%v deleted=%v multipart=%s:%s}", b.allowE, b.keys, b.deleted, b.mp, b.mpKey)
 }
 
-func (b *bucketState) hasSkippedEntries() bool { return b.mp != "none" || len(b.emptyDirs) > 0 }
-
 func content(key string) []byte { return []byte("v:" + key) }
 
 // conflictFree keeps the keys (in order) that can coexist in a directory tree.
@@ -331,6 +329,12 @@ func runSession(b *bucketState, r listReq) (pages int, trace string, cut bool, e
 			}
 		}
 		code, res, body, e := b.cli.listPage(b.name, r.v2, params)
+		for attempt := 0; attempt < 3 && (e != nil && res == nil && code == 0 || code >= 500); attempt++ {
+			// a loaded machine can make a filer call time out; only a persistent failure counts
+			vlib.Class("list-retried-after-5xx")
+			time.Sleep(time.Duration(attempt+1) * 300 * time.Millisecond)
+			code, res, body, e = b.cli.listPage(b.name, r.v2, params)
+		}
 		if e != nil || code != 200 {
 			return pages, strings.Join(tr, " | "), false, fmt.Errorf("page %d (continue from %q): status %d %s %v", pages+1, cont, code, body, e)
 		}
@@ -506,7 +510,9 @@ func classes(b *bucketState, r listReq, pages int) []string {
 
 // applyKnown narrows a request exactly as far as the listed findings require.
 func applyKnown(b *bucketState, r listReq) listReq {
-	if vlib.Known(keySkipped) && b.hasSkippedEntries() && r.maxKeys > 0 {
+	// .uploads only sits in the bucket root and only a listing of the root with an empty
+	// name prefix gets it into its window; emptied directories can be anywhere
+	if vlib.Known(keySkipped) && r.maxKeys > 0 && (len(b.emptyDirs) > 0 || b.mp != "none" && r.prefix == "") {
 		vlib.Excluded(keySkipped)
 		r.maxKeys = 0
 	}
@@ -620,16 +626,23 @@ func TestPropListExhaustive(t *testing.T) {
 		subsets = []int{127, 0b1010101, 0b0101110, 0b0000110}
 	}
 	sessions := 0
-	idx := 0
+	type job struct {
+		m      int
+		allowE bool
+	}
+	var jobs []job
 	for _, m := range subsets {
-		for _, allowE := range []bool{false, true} {
-			idx++
+		jobs = append(jobs, job{m, false})
+		if !vlib.Thorough() || m%4 == 3 {
+			jobs = append(jobs, job{m, true}) // the flag only matters with empty directories; sampled in thorough
+		}
+	}
+	for idx, j := range jobs {
+		{
 			if !vlib.ShardOwns(idx) {
 				continue
 			}
-			if allowE && m%4 != 3 && vlib.Thorough() {
-				continue // the flag only matters with empty directories; sample it
-			}
+			m, allowE := j.m, j.allowE
 			var puts []string
 			for i, k := range universe {
 				if m&(1<<i) != 0 {
